@@ -420,6 +420,7 @@ pub fn run() -> Report {
         rep.merge(p);
     }
     long_index_case(&mut rep, &root, if thorough { 1_000_000 } else { 150_000 }, "csvdump");
+    high_heights(&mut rep, &root);
     let _ = std::fs::remove_dir_all(&root);
     rep
 }
@@ -452,6 +453,111 @@ pub fn long_index_case(rep: &mut Report, root: &std::path::Path, total: usize, c
             let bad = if cb == "csvdump" { check_csvdump(&r, btc, &in_range(&all, 0, 12), 0, 12) } else { check_unspent(&r, btc, &in_range(&all, 0, 12), 0, 12) };
             if let Some((sig, detail)) = bad.into_iter().next() {
                 rep.disagree(&format!("long-index:{}", sig), detail.chars().take(500).collect(), desc);
+            }
+        }
+    }
+    wk.cleanup();
+}
+
+/// The same competitors around a tip whose height is large (a pruned node of an old chain, a coin with short block
+/// intervals): the active chain is 4 blocks at heights B..B+3 for bases B at and around powers of two, and above, beside or
+/// on top of it sit one kind of record that must not be delivered.
+fn high_heights(rep: &mut Report, root: &std::path::Path) {
+    let btc = coin("bitcoin");
+    let bases: Vec<u64> = if is_thorough() {
+        vec![65_535, 65_536, 1 << 20, (1 << 20) + (1 << 19) + 5, (1 << 21) - 4, 3 << 20, 5_600_000, (1 << 24) + 1, (1 << 31) - 2, 1 << 31, (1 << 32) + 3, 1 << 40]
+    } else {
+        vec![65_536, 1 << 20, (1 << 20) + (1 << 19) + 5, 5_600_000, 1 << 31, (1 << 32) + 3]
+    };
+    let wk = Worker::new(root, 970);
+    for (bi, &base) in bases.iter().enumerate() {
+        let chain = dependent_chain(btc, base, 4);
+        let all = chain.mblocks();
+        let tip = base + 3;
+        for kind in 0..5usize {
+            for cb in ["csvdump", "unspentcsvdump"] {
+                let mut world = World::simple(btc, &chain.blocks, base);
+                let mut foreign: Vec<String> = Vec::new();
+                let mk = |h: u64, tag: u32, parent: [u8; 32]| Block::build(1, parent, 1_700_000_000 + tag, 0x1d00ffff, tag, vec![coinbase(h, 0xC400 + tag, vec![pay(223, 50 * COIN_VALUE)]), crate::c01::TxP::base().build(180 + tag as u8)]);
+                let label = match kind {
+                    0 => {
+                        // never-connected blocks with data on top of the tip (received just before shutdown)
+                        let b1 = mk(tip + 1, 1, chain.blocks[3].hash());
+                        let b2 = mk(tip + 2, 2, b1.hash());
+                        for (k, b) in [&b1, &b2].into_iter().enumerate() {
+                            foreign.extend(b.txs.iter().map(|t| refmodel::ser::hash_hex(&t.txid())));
+                            world.add_block_status(1, tip + 1 + k as u64, b, VALID_TRANSACTIONS | HAVE_DATA);
+                        }
+                        "never-connected-above-the-tip"
+                    }
+                    1 => {
+                        // headers far ahead of the tip (initial sync)
+                        let mut parent = chain.blocks[3].hash();
+                        for k in 1..=6u64 {
+                            let b = mk(tip + k, 10 + k as u32, parent);
+                            world.put_rec(&IndexRec { hash: b.hash(), client_version: 270000, height: tip + k, status: VALID_TREE, ntx: 0, file: 0, data_pos: 0, undo_pos: 0, header: b.header.ser() });
+                            parent = b.hash();
+                        }
+                        "headers-ahead-of-the-tip"
+                    }
+                    2 => {
+                        // never-connected sibling of the tip and of the block below it
+                        for (k, h) in [tip - 1, tip].into_iter().enumerate() {
+                            let b = mk(h, 20 + k as u32, chain.blocks[(h - base) as usize - 1].hash());
+                            foreign.extend(b.txs.iter().map(|t| refmodel::ser::hash_hex(&t.txid())));
+                            world.add_block_status(1, h, &b, VALID_TRANSACTIONS | HAVE_DATA);
+                        }
+                        "never-connected-siblings"
+                    }
+                    3 => {
+                        // invalidated branch reaching above the tip
+                        let mut parent = chain.blocks[2].hash();
+                        for k in 0..3u64 {
+                            let b = mk(tip + k, 30 + k as u32, parent);
+                            foreign.extend(b.txs.iter().map(|t| refmodel::ser::hash_hex(&t.txid())));
+                            world.add_block_status(1, tip + k, &b, ACTIVE | if k == 0 { FAILED_VALID } else { FAILED_CHILD });
+                            parent = b.hash();
+                        }
+                        "invalidated-branch-above-the-tip"
+                    }
+                    _ => {
+                        // a failed block with data on top of the tip
+                        let b = mk(tip + 1, 40, chain.blocks[3].hash());
+                        foreign.extend(b.txs.iter().map(|t| refmodel::ser::hash_hex(&t.txid())));
+                        world.add_block_status(1, tip + 1, &b, VALID_TRANSACTIONS | HAVE_DATA | FAILED_VALID);
+                        "failed-block-above-the-tip"
+                    }
+                };
+                let mut spec = RunSpec::new("bitcoin", cb).range(Some(base), None);
+                spec.env.push(("VERIF_DETRAND".into(), ["1", "2", "6"][(bi + kind) % 3].to_string()));
+                let r = match wk.world_run(&world, &spec) {
+                    Ok(r) => r,
+                    Err(m) => {
+                        rep.machinery(m);
+                        continue;
+                    }
+                };
+                rep.states += 1;
+                rep.transitions += 1;
+                rep.count(&format!("high-tip:{}", label), 1);
+                rep.nontrivial.insert(h8(format!("high-{}-{}-{}", base, kind, cb).as_bytes()));
+                let (s, e) = (r.declared_start().unwrap_or(base), r.declared_end().unwrap_or(tip));
+                let mut bad: Vec<Mismatch> = Vec::new();
+                if r.ok() && e != tip {
+                    bad.push(("wrong-tip".into(), format!("processed up to height {} but the active chain ends at {}", e, tip)));
+                }
+                let range = in_range(&all, s, e);
+                bad.extend(if cb == "csvdump" { check_csvdump(&r, btc, &range, s, e) } else { check_unspent(&r, btc, &range, s, e) });
+                for (name, content) in &r.files {
+                    let text = String::from_utf8_lossy(content);
+                    if let Some(t) = foreign.iter().find(|t| text.contains(t.as_str())) {
+                        bad.insert(0, ("competitor-transaction-in-output".into(), format!("{} contains txid {} of a block outside the active chain", name, t)));
+                        break;
+                    }
+                }
+                if let Some((sig, detail)) = bad.into_iter().next() {
+                    rep.disagree(&format!("high-tip[{}]:{}", label, sig), format!("active chain at heights {}..{} ({}), {}: {}", base, tip, label, cb, detail.chars().take(400).collect::<String>()), replay_case(&world, &spec, expected_brief("output == model of the active chain", s, e), &r, &wk.dir));
+                }
             }
         }
     }
